@@ -135,6 +135,16 @@ Verdict(t, e) ==
               (IF Unsigned(RunGates(grp, e.out.gates)) = Unsigned(GS(GOf(e.st.n, e.out), e.st.n))
                THEN <<"StateToGraphOK", "sign-only">> ELSE <<"StateToGraphOK", e.via>>)
          ELSE <<"ok", "">>
+    [] e.fn = "alt_result" ->
+         \* entries of an alternate-target result: [map, graph]; base = the target graph
+         IF e.err # "" THEN <<"Raised", e.via>>
+         ELSE IF \E k \in DOMAIN e.entries : ~IsPerm(n, e.entries[k].map) THEN <<"MapIsPerm", e.via>>
+         ELSE IF \E k \in DOMAIN e.entries : ~GraphOK(n, e.entries[k].graph) THEN <<"OutputIsGraph", e.via>>
+         ELSE IF \E k \in DOMAIN e.entries :
+                   GOf(n, e.entries[k].graph) \notin Orbit(Relabel(G1, n, e.entries[k].map), n) THEN <<"ListedLC", e.via>>
+         ELSE IF Cardinality({GOf(n, e.entries[k].graph) : k \in DOMAIN e.entries}) # Len(e.entries)
+              THEN <<"NoDuplicateGraphs", e.via>>
+         ELSE <<"ok", "">>
     [] OTHER -> <<"HarnessUnknownFn", "">>
 
 Init ==
